@@ -95,6 +95,7 @@ specs["C03"] = {"runs": [
     run(CMD + "balance:Harness_golden_concrete", QT, {}, "fp", owned=["golden-"], cover=["golden-balance"], concrete_fmt=True, note="translator validation: the executor, all-concrete, reproduces the repository's five golden balance outputs byte for byte from testAssets/{food,log}.yaml"),
     run(CMD + "balance:Harness_balance_single", Q, {"F": 2, "catalogue": 6}, "real", cover=["printed"], note="--single-element X in all three modes: foods defining X (any amount incl. 0), defined without X, undefined"),
     run("_root:Harness_merge_duplicates", QT, {"E": 5}, "real", cover=["merged"], note="the quantities of a day's repeated foods are conserved by the merge that feeds every report: every repetition pattern of <=5 entries over three foods"),
+    run("_root:Harness_merge_many", QT, {"K": 20}, "real", cover=["merged"], note="a day of 20 distinct foods with one of them repeated after any number of the others (210 shapes, symbolic quantities): the merge keeps every quantity also when its list has grown past 8 and 16 entries"),
     run(CMD + "balance:Harness_balance_single", T, {"F": 3, "catalogue": 14}, "real", cover=["printed"]),
     run(CMD + "balance:Harness_reports_agree", Q, {"D": 1, "E": 2}, "real", owned=["balance-grand-total=sum-of-top-rows", "balance-rows-well-formed", "balance-grand-total-labelled"], note="--single-element: grand total = sum of the top-level rows"),
     run("cmd/hranoprovod-cli:Harness_app_pipeline", QT, {'command': 2}, "real", cover=["ran"], note='whole application, `balance -s x` on book and log text: grand total = sum over logged foods of quantity x resolved amount (through the real parser and resolver)'),
@@ -183,7 +184,7 @@ specs["C08"] = {"runs": c08 + [
     run("cmd/hranoprovod-cli:Harness_app_cyclic_book", QT, {}, owned=["no-panic", "terminates", "cyclic-book-is-error", "acyclic-book-resolves-under-default-limit"], cover=["ran"], depth_is_violation=True, note="whole application: three cyclic books and an acyclic one x --maxdepth in {unset, -1, 0, 1, 2} x four commands that resolve the book: terminates within the call-depth cap, cyclic books are errors"),
     run("cmd/hranoprovod-cli:Harness_app_odd_names", QT, {}, owned=["no-panic", "terminates"], cover=["ran"], depth_is_violation=True, max_steps=3000000, note="whole application: 9 names with stray separators, empty segments, quotes, long segments x 14 tree/register/export commands: terminates (step and call-depth budgets) without a panic"),
     run("cmd/hranoprovod-cli:Harness_app_flag_combinations", QT, {}, owned=["no-panic", "terminates"], cover=["ran"], depth_is_violation=True, note="whole application: every subset of nine register flags and of three balance flags: terminates without a panic"),
-    run("cmd/hranoprovod-cli:Harness_app_failing_stdout", QT, {}, owned=["no-panic"], note="16 commands on usual, empty, comment-only and other-layout logs"),
+    run("cmd/hranoprovod-cli:Harness_app_failing_stdout", QT, {}, owned=["no-panic"], note="17 commands on usual, empty, comment-only and other-layout logs"),
     run("cmd/hranoprovod-cli:Harness_app_single_food_patterns", QT, {}, owned=["no-panic", "malformed-pattern-is-error", "valid-pattern-runs"], cover=["ran"], note="`register -f PATTERN` with 4 well-formed and 8 malformed regular expressions (regexp.Compile executed from its real SSA)"),
     run("cmd/hranoprovod-cli:Harness_app_settings", Q, {"full": 0}, owned=["no-panic"], note="whole application under every source combination of the settings"),
  ], "assumptions": ["implicit assertions on every explored path: nil dereference, index and slice bounds, failed type assertion, integer division by zero, explicit panic; termination = every path ends within the step and call-depth budgets"],
@@ -199,7 +200,7 @@ specs["C09"] = {"runs": [ls(c, Q, q, ["malformed-"]) for c in (5, 6)] + [ls(c, T
     run(CMD + "csv:Harness_csv_resolved_malformed", QT, {"k": 2}, owned=["malformed-", "no-panic"], cover=["ran"]),
     run(CMD + "stats:Harness_stats_malformed", QT, {"k": 2}, owned=["malformed-", "no-panic"]),
     run("cmd/hranoprovod-cli:Harness_main_exit_status", QT, {}, owned=["malformed-input-is-nonzero-exit"], cover=["ran"], note="the program's own main(): a malformed line in the files a command reads gives a non-zero exit status (lint's status is not asserted)"),
-    run("cmd/hranoprovod-cli:Harness_app_bad_input", QT, {}, owned=["malformed-", "well-formed-"], cover=["ran"], note="whole application: each of 15 file-reading command variants with a malformed line planted in the log or the book: GetApp().Run returns an error quoting the line and its number"),
+    run("cmd/hranoprovod-cli:Harness_app_bad_input", QT, {}, owned=["malformed-", "well-formed-"], cover=["ran"], note="whole application: each of 16 file-reading command variants with a malformed line planted in the log or the book: GetApp().Run returns an error quoting the line and its number"),
  ], "assumptions": [PF, "malformed = an indented line whose body has no blank at all (bad syntax), or whose value token starts with a byte that occurs in no Go float literal (bad number)"],
  "outside_claim": ["stderr text", "lint's exit status when it found malformed lines (it returns nil: the property states what lint prints, not its status)"], "stubs": [REALSTD, FMT]}
 
@@ -207,7 +208,7 @@ specs["C10"] = {"runs": [
     run("parser:Harness_parse_flaky", QT, {"R": 3}, cover=["truncated", "complete"], note="reader fails at every byte offset of files of 1..3 records, chunk sizes 1/7/4096, with and without a final EOL"),
     run(CMD + "utils:Harness_walk_flaky", QT, {}, cover=["truncated", "complete"], note="WalkNodesInStream with and without a period over a reader failing at every offset"),
     run("cmd/hranoprovod-cli:Harness_main_exit_status", QT, {}, owned=["unreadable-input-is-nonzero-exit"], cover=["ran"], note="the program's own main(): files that are directories give a non-zero exit status"),
-    run("cmd/hranoprovod-cli:Harness_app_bad_input", QT, {}, owned=["unreadable-"], cover=["ran"], note="whole application: each of 15 file-reading command variants with the log or the book being a directory (open succeeds, every read fails)"),
+    run("cmd/hranoprovod-cli:Harness_app_bad_input", QT, {}, owned=["unreadable-"], cover=["ran"], note="whole application: each of 16 file-reading command variants with the log or the book being a directory (open succeeds, every read fails)"),
     run(CMD + "balance:Harness_failing_input", QT, {}, cover=["truncated", "complete"], note="16 command functions (incl. register/print with an end date, summary of a day that later days follow, on a log that is not in date order) reading the log or the book from a reader that fails at a symbolic offset"),
     run("parser:Harness_parse_long_line", QT, {}, cover=["long"], max_steps=60000000, note="a 70 000-byte line: the real bufio.ErrTooLong path, executed concretely"),
  ], "assumptions": ["the OS is represented as `Read returns (n, err)`: EISDIR, permissions etc. are a non-EOF error from Read"],
@@ -294,7 +295,7 @@ specs["C16"] = {"runs": [
 specs["C17"] = {"runs": [
     run(CMD + "balance:Harness_failing_output", QT, {}, owned=["lost-output-is-error", "complete-output-succeeds", "something-written"], cover=["ran"], note="19 command variants x sink failing from its 1st/2nd/3rd write or never"),
     run("cmd/hranoprovod-cli:Harness_main_exit_status", QT, {}, owned=["lost-output-is-nonzero-exit", "exit-0-on-success"], cover=["ran"], note="the program's own main(): os.Args, GetApp().Run, log.Fatal, exit status; standard output healthy / a full device (ENOSPC on every write) / a closed pipe (SIGPIPE kills the process unless the program ignores it, then EPIPE) x 16 commands; natively the real binary is re-executed with /dev/full and a closed pipe"),
-    run("cmd/hranoprovod-cli:Harness_app_failing_stdout", QT, {}, owned=["lost-output-is-error", "complete-output-succeeds"], cover=["ran"], note="whole application: 16 command variants writing to the process's standard output (os.Stdout) which rejects every write: GetApp().Run returns an error"),
+    run("cmd/hranoprovod-cli:Harness_app_failing_stdout", QT, {}, owned=["lost-output-is-error", "complete-output-succeeds"], cover=["ran"], note="whole application: 17 command variants writing to the process's standard output (os.Stdout) which rejects every write: GetApp().Run returns an error"),
  ], "assumptions": [BUFIO, CSVW, TMPL], "outside_claim": ["reports longer than bufio's 4096-byte buffer (write-through before Flush)", "sinks failing from a byte offset inside a write"],
  "stubs": [FMT, TIME, "os.Open: virtual FS"]}
 
